@@ -62,7 +62,7 @@ def runHist (fl : Flags) (b : Block) : Res :=
                          memoCopy := fl.memoCopy, publishAfterUpdate := fl.publishAfterUpdate,
                          trackReaching := fl.trackReaching, takeValuedNamed := fl.takeValuedNamed,
                          skipRecordsInput := fl.skipRecordsInput, hopCopies := fl.hopCopies }
-      let o := redefine ctx cgrRedef target none (fuelFor sc) { initSt cgrRedef.cg h.memo items with count := h.count } fl.dupIsError
+      let o := histRedefine ctx cgrRedef target none (fuelFor sc) { memo := h.memo, count := h.count } items fl.dupIsError
       let c := if genErr then (if rdres = ["err", "generr"] then none else some s!"op{h.ops}_failing_generator_expected_error_from_redefine")
                else if showRedef o = showImplRedef rdres then none
                else some s!"op{h.ops}_redefine_model=[{noSpace (showRedef o)}]_impl=[{noSpace (showImplRedef rdres)}]"
